@@ -173,6 +173,16 @@ Theorem timeout_check_spacing :
 Proof. exact timeout_check_spacing_proof. Qed.
 Print Assumptions timeout_check_spacing.
 
+(* the deadline itself: yr_scanner_set_timeout (through which yr_rules_scan_* and `yara -a` pass as well) turns every number
+   of seconds its `int` parameter can carry into exactly that many nanoseconds, the unit of the two deadline tests; the
+   expression is regenerated from scanner.c with its C integer types and wrap-around explicit *)
+Theorem timeout_ns_exact : forall t, 0 <= t <= timeout_param_max -> timeout_ns t = t * timeout_ns_per_second.
+Proof. exact timeout_ns_exact_proof. Qed.
+Print Assumptions timeout_ns_exact.
+
+Example timeout_ns_inhabited : timeout_ns 3 = 3000000000 /\ timeout_ns 60 = 60000000000 /\ timeout_ns 2147483647 = 2147483647000000000.
+Proof. exact timeout_ns_example. Qed.
+
 (* "ERROR_SCAN_TIMEOUT within a bounded delay of the deadline" is wall-clock.  Partial: proved is that
    the time between two clock reads is at most 4096 (resp. 100) times a bound B on the cost of one
    step.  MISSING: B itself -- one block-loop step verifies every atom hit at that position (a regexp
